@@ -1,19 +1,38 @@
 from specs import KEYS, CHECKS, unit
 
+# Two binaries only (each costs a link step): keep-balance hosts parts 1 and 3 and the
+# reader side of part 2 (arvados.KeepService.Index/IndexMount and keepclient.GetIndex are
+# exported API and are linked into keep-balance); keepstore hosts the producer side.
 KEYS['keepbalance_c06'] = {'pkg': 'services/keep-balance'}
 KEYS['keepstore_c06'] = {'pkg': 'services/keepstore'}
 
 CHECKS['C06'] = {
     'ready': False,
     'level': 'fault_enumeration',
-    'rule': 'wip',
-    'assumptions': [],
+    'level_text': 'parts 2 and 3 enumerate faults exhaustively per generated case (every cut byte of an index body x 4 transports x 3 '
+                  'readers; every request of a sweep x 6-7 fault kinds); part 1 explores generated scan histories',
+    'technique': 'property-based testing (rapid) against a simulated collections table / stub keepstores, with exhaustive fault enumeration inside each case',
+    'rule': 'paging: rapid-generated table (0-200 collections, tie groups incl. larger than the page, trashed/old-version rows), page size 0(max)/1..N+1, '
+            'server-side page caps, and a schedule of modify/add/delete events applied between page requests; the real EachCollection scans a simulated list API; '
+            'non-trivial = a page boundary fell inside a group of equal modified_at, or an event was applied mid-scan. '
+            'index: generated well-formed index bodies (0-6 entries, second- and nanosecond mtimes), every cut point served over loopback HTTP in 4 transports to 3 readers; '
+            'non-trivial = body has at least one entry. producer: real keepstore handler with 3 volumes, one of which fails IndexTo after j entries (optionally mid-line); '
+            'non-trivial = a volume fails. sweep: generated world (2-4 keepstores, 1-2 mounts each, 3-8 blocks, 1-6 collections) for which a fault-free Balancer.Run sends '
+            'non-empty trash/pull lists (checked; otherwise discarded and counted as trivial); every request of the fault-free run x {500, connection error, 3 truncations, '
+            'malformed, interior blank line} is injected in a separate real Run. distinct = fingerprint of the generated table+schedule / body / volume plan / world.',
+    'assumptions': [
+        'the collections list API is simulated from its documented contract (filters, order, limit, count, include_trash, include_old_versions, select); the Rails implementation is not executed',
+        'modified_at only moves forward: a modification or addition gets a timestamp greater than every existing one (events of one batch may share one timestamp)',
+        'part 3 uses an in-process http.RoundTripper (truncation = body reader ending in EOF or io.ErrUnexpectedEOF); real-socket truncation semantics are covered in part 2',
+        'lossy-server variant (a counted row left out of every page, static table) is an extension beyond the stated quantifier, justified by the "or else the scan fails" clause',
+        'zero collections => Run fails (CheckSanityLate) is taken from the property anchors / DESIGN, not from the statement text',
+    ],
     'units': [
-        unit('paging', 'keepbalance_c06', '^TestVerifC06Paging$', {'shards': 16, 'checks': 150}, {'shards': 16, 'checks': 4000, 'timeout': 1500}),
+        unit('paging', 'keepbalance_c06', '^TestVerifC06Paging$', {'shards': 16, 'checks': 300}, {'shards': 16, 'checks': 4000, 'timeout': 1500}),
         unit('paging_lossy', 'keepbalance_c06', '^TestVerifC06PagingLossy$', {'shards': 4, 'checks': 100}, {'shards': 8, 'checks': 2000, 'timeout': 1500}),
-        unit('sweep', 'keepbalance_c06', '^TestVerifC06SweepAbort$', {'shards': 16, 'checks': 3}, {'shards': 16, 'checks': 40, 'timeout': 1500}),
-        unit('sweep_zero', 'keepbalance_c06', '^TestVerifC06SweepZeroCollections$', {'shards': 2, 'checks': 20}, {'shards': 4, 'checks': 200, 'timeout': 1500}),
-        unit('index_readers', 'keepbalance_c06', '^TestVerifC06IndexTruncation$', {'shards': 16, 'checks': 2}, {'shards': 16, 'checks': 32, 'timeout': 1500}),
+        unit('sweep', 'keepbalance_c06', '^TestVerifC06SweepAbort$', {'shards': 16, 'checks': 2}, {'shards': 16, 'checks': 40, 'timeout': 1800}),
+        unit('sweep_zero', 'keepbalance_c06', '^TestVerifC06SweepZeroCollections$', {'shards': 2, 'checks': 15}, {'shards': 4, 'checks': 200, 'timeout': 1500}),
+        unit('index_readers', 'keepbalance_c06', '^TestVerifC06IndexTruncation$', {'shards': 16, 'checks': 2}, {'shards': 16, 'checks': 32, 'timeout': 1800}),
         unit('index_producer', 'keepstore_c06', '^TestVerifC06IndexProducer$', {'shards': 8, 'checks': 150}, {'shards': 16, 'checks': 3000, 'timeout': 1500}),
     ],
 }
